@@ -371,6 +371,7 @@ func (ex *Exec) call(in *ssa.Call, cc *ssa.CallCommon, r Term) {
 	if in != nil && pos == 0 {
 		pos = in.Pos()
 	}
+	ex.bumpGhosts(calleeName(cc))
 	if ex == ex.top && ex.fc != nil && len(ex.fc.CallAsserts) > 0 {
 		name := calleeName(cc)
 		seenA := map[string]bool{}
@@ -386,6 +387,11 @@ func (ex *Exec) call(in *ssa.Call, cc *ssa.CallCommon, r Term) {
 					if _, clash := env.vars[k]; !clash {
 						env.vars[k] = nv
 					}
+				}
+				for ai, a := range cc.Args {
+					av := ex.val(a)
+					av.Typ = a.Type()
+					env.vars[fmt.Sprintf("arg_%d", ai)] = av
 				}
 				t, err := env.Goal(ca.C.E)
 				if err != nil {
@@ -418,7 +424,7 @@ func (ex *Exec) call(in *ssa.Call, cc *ssa.CallCommon, r Term) {
 		fc := ex.ifaceContract(cc)
 		if fc == nil {
 			c.dropped["interface call without contract: havoc-all ("+calleeName(cc)+")"] = true
-			c.havocAll(ex.cur)
+			ex.havocAllKeepPrivate()
 			setRes(freshRes("inv"))
 			return
 		}
@@ -435,7 +441,7 @@ func (ex *Exec) call(in *ssa.Call, cc *ssa.CallCommon, r Term) {
 			return
 		}
 		c.dropped["call through function value: havoc-all"] = true
-		c.havocAll(ex.cur)
+		ex.havocAllKeepPrivate()
 		setRes(freshRes("dyn"))
 		return
 	}
@@ -471,7 +477,7 @@ func (ex *Exec) call(in *ssa.Call, cc *ssa.CallCommon, r Term) {
 		return
 	}
 	c.dropped["module call without contract that cannot be inlined: havoc-all ("+name+")"] = true
-	c.havocAll(ex.cur)
+	ex.havocAllKeepPrivate()
 	setRes(freshRes("call"))
 }
 
@@ -479,7 +485,7 @@ func (ex *Exec) inline(fn *ssa.Function, args []Val, bindings []ssa.Value, r Ter
 	ex.top.inlineN++
 	sub := &Exec{v: ex.v, c: ex.c, fn: fn, fname: fn.String(), prefix: fmt.Sprintf("%si%d_", ex.prefix, ex.top.inlineN),
 		vals: map[ssa.Value]Val{}, obls: ex.obls, depth: ex.depth + 1, stack: append(append([]string{}, ex.stack...), fn.String()),
-		top: ex.top, decAtHeader: map[*ssa.BasicBlock]Val{}, headerEnv: map[*ssa.BasicBlock]*Env{}, autoRange: map[*ssa.BasicBlock]*rangeInv{}, entryEnv: nil}
+		top: ex.top, decAtHeader: map[*ssa.BasicBlock]Val{}, headerEnv: map[*ssa.BasicBlock]*Env{}, autoRange: map[*ssa.BasicBlock]*rangeInv{}, debugBound: map[*Env]map[string]bool{}, paramNames: map[string]bool{}, entryEnv: nil}
 	sub.fc = ex.contractFor(fn) // may carry loop invariants for an inlined function
 	for i, p := range fn.Params {
 		a := args[i]
@@ -557,7 +563,7 @@ func (ex *Exec) applyContract(fc *FuncContract, fn *ssa.Function, cc *ssa.CallCo
 	}
 	// effect
 	if !fc.HasMod {
-		c.havocAll(ex.cur)
+		ex.havocAllKeepPrivate()
 	} else {
 		var regs []string
 		for _, m := range fc.Modifies {
@@ -776,7 +782,7 @@ func (ex *Exec) havocLvalue(pre *Env, m string, who string) {
 	c := ex.c
 	switch {
 	case m == "everything":
-		c.havocAll(ex.cur)
+		ex.havocAllKeepPrivate()
 		return
 	case strings.HasPrefix(m, "typemem("):
 		t := ex.v.lookupType(pre.pkg, strings.TrimSuffix(strings.TrimPrefix(m, "typemem("), ")"))
